@@ -531,6 +531,15 @@ impl RawRecords {
             None
         };
         self.current_offset += header.data_size();
+        if self.current_offset > self.file.size() {
+            // Header (and meta) are present, but the record is cut: treat it exactly as a read past the end
+            return Err(Error::bincode(format!(
+                "record at the end of the file is truncated: it ends at {}, file size is {}",
+                self.current_offset,
+                self.file.size()
+            ))
+            .into());
+        }
         Ok((header, data))
     }
 }
